@@ -5,5 +5,5 @@ SPEC = seq_spec(
     'The model has a tamper event that replaces or deletes any object at any time; all invariants are proved for every accepted sequence including tampering: the lock history stays one chain, published stays a subset of committed, an instance comes up only on the committed lock checkpoint and only if every right-edge object it read was the rendering of that tree, a poisoned load can only be refused, new trees extend the held tree by exactly the pool. The real code is run against a tamper catalogue (delete, truncate, bit-flip, copy another object over) on every object class, mid-round crashes included, then restarted and sequenced further; acceptor + oracle (every committed root is the RFC 6962 root of previous leaves ++ staged leaves).',
     "Trusted: Lean kernel, standard axioms, extractor, harness stores/scheduler, Lean SHA-256 rendering. Assumes the Backend/LockBackend contracts, collision resistance, unforgeability.",
     "invariants by induction over all accepted event sequences (Lean 4) + regenerated effect-skeleton tie + trace acceptance of the real code with byte-exact rendering",
-    required=['C08_chain_under_tamper', 'C08_load_sound', 'C08_poisoned_load_refused', 'C08_extends_by_pool'],
+    required=['C08_chain_under_tamper', 'C08_load_sound', 'C08_poisoned_load_refused', 'C08_extends_by_pool', 'C08_edge_tiles_authentic', 'C08_edge_tiles_complete'],
 )
